@@ -66,6 +66,7 @@ public:
                     const AggregationConfig *aggregation_config,
                     size_t attributes_limit = kAggregationCardinalityLimit)
       : instrument_descriptor_(instrument_descriptor),
+        attributes_limit_(attributes_limit),
         attributes_hashmap_(new AttributesHashMap(attributes_limit)),
         attributes_processor_(attributes_processor),
 #ifdef ENABLE_METRICS_EXEMPLAR_PREVIEW
@@ -172,6 +173,8 @@ public:
 
 private:
   InstrumentDescriptor instrument_descriptor_;
+  // cardinality limit applied to every per-interval hashmap
+  size_t attributes_limit_;
   // hashmap to maintain the metrics for delta collection (i.e, collection since last Collect call)
   std::unique_ptr<AttributesHashMap> attributes_hashmap_;
   std::function<std::unique_ptr<Aggregation>()> create_default_aggregation_;
